@@ -784,6 +784,11 @@ func main() {
 		rep.FinishShard(map[string]any{"scenarios": st})
 	}
 	litmus()
+	seqDepth := 16
+	if rep.Thorough() {
+		seqDepth = 20
+	}
+	sequentialQueues(seqDepth)
 	nShards := engine.Workers()
 	blobs := rep.RunShards(nShards)
 	merged := map[string]*scStat{}
@@ -888,6 +893,10 @@ func replay() {
 	rp, err := engine.LoadReplay(rep.ReplayPath)
 	if err != nil {
 		engine.HarnessError("cannot load replay: %v", err)
+	}
+	var sc seqCase
+	if json.Unmarshal(rp.Case, &sc) == nil && sc.Kind == "sequential-fifo" {
+		replaySeq(sc)
 	}
 	var c SchedCase
 	if err := json.Unmarshal(rp.Case, &c); err != nil {
